@@ -178,6 +178,31 @@ def judgeTraverse (st : St) (name c dir md root filt : String) (out : List Strin
     else s!"reject {name}-mismatch {c} {dir} root={root} got={segs} want={"|".intercalate (expectWalks g d f md root false)}"
   | _, _, _, _, _ => s!"reject bad-output {name}"
 
+def edgeWeight (e : Edge) : Nat := 1 + e.id % 3
+
+def fmtPTerm (t : PTerm) : String := s!"{t.node}@{t.dist}*{t.weight}"
+
+def judgeStateless (st : St) (c dir md root filt : String) (out : List String) : String :=
+  match parseDir dir, md.toInt?, root.toNat?, parseFilter filt, out with
+  | some d, some md, some root, some f, [inc, ts] =>
+    let got := if ts == "-" then [] else sortStrs (ts.splitOn "|")
+    let g := st.graphOf c
+    let fuel := if md > 0 then md.toNat + 3 else g.edges.length + 2
+    let wantT := maxTerms g d (fun e => if f e then some (edgeWeight e) else none) md fuel ⟨root, 0, 0⟩
+    let want := sortStrs (wantT.map fmtPTerm)
+    let wantInc := if md > 0 then (wantT.filter (fun t => decide ((t.dist : Int) > md))).length else 0
+    if got != want then s!"reject tssl-mismatch {c} {dir} root={root} got={ts} want={"|".intercalate want}"
+    else if field inc "inc" != some (toString wantInc) then s!"reject tssl-incomplete-count {inc} want={wantInc}"
+    else "ok"
+  | _, _, _, _, _ => "reject bad-output tssl"
+
+def maxOf (xs : List Nat) : Nat := xs.foldl (fun m x => if x > m then x else m) 0
+
+def multiDeg (g : G) (v : Nat) : Dir → Nat
+  | .out => (g.incident v .out).length
+  | .inn => (g.incident v .inn).length
+  | .both => (g.incident v .out).length + (g.incident v .inn).length
+
 def step (st : St) (ts : List String) : St × String :=
   let (op, out) := splitArrow ts
   match op with
@@ -268,6 +293,38 @@ def step (st : St) (ts : List String) : St × String :=
       | _, _, _ => (st, "reject bad-output toseg")
   | ["tsbfs", c, d, md, root, filt] => (st, judgeTraverse st "tsbfs" c d md root filt out)
   | ["tsdfs", c, d, md, root, filt] => (st, judgeTraverse st "tsdfs" c d md root filt out)
+  | ["tssl", c, d, md, root, filt] => (st, judgeStateless st c d md root filt out)
+  | ["numedges", c] => match out with
+      | [n] => match n.toNat? with
+        | some n =>
+          let g := st.graphOf c
+          -- the triple store and its projections hold a multigraph (every triple counts); the adjacency map and the
+          -- CSR digraph can only count distinct (start, end) pairs
+          let want := if c == "ts" || c == "proj" then g.edges.length else g.pairs.length
+          if n == want then (st, "ok")
+          else if c == "am" && n == (nodeSet g).length then (st, s!"reject am-numedges-returns-node-count got={n} want={want}")
+          else if c == "ts" && !st.tomb.isEmpty && n == (st.graphOf c true).edges.length then
+            (st, s!"reject ts-numedges-ignores-tombstone got={n} want={want}")
+          else if c == "proj" && !st.tomb.isEmpty && n == (st.graphOf c true).edges.length then
+            (st, s!"reject proj-ignores-tombstone numedges got={n} want={want}")
+          else (st, s!"reject numedges-mismatch {c} got={n} want={want}")
+        | none => (st, "reject bad-output numedges")
+      | _ => (st, "reject bad-output numedges")
+  | ["dims", c, d] => match parseDir d, out with
+      | some d, [n, m] => match n.toNat?, m.toNat? with
+        | some n, some m =>
+          let judge (g : G) : Bool :=
+            let ns := nodeSet g
+            let setMax := maxOf (ns.map (fun v => (canon (g.adj v d)).length))
+            let multiMax := maxOf (ns.map (fun v => multiDeg g v d))
+            -- multiplicity of callbacks is not part of the property: any count between the number of distinct
+            -- neighbours and the number of incident edges is accepted; the set-valued containers must be exact
+            n == ns.length && setMax ≤ m && m ≤ multiMax && (!(c == "am" || c == "ts") || m == setMax)
+          if judge (st.graphOf c) then (st, "ok")
+          else if c == "proj" && !st.tomb.isEmpty && judge (st.graphOf c true) then (st, s!"reject proj-ignores-tombstone dims got={n},{m}")
+          else (st, s!"reject dims-mismatch {c} got={n},{m}")
+        | _, _ => (st, "reject bad-output dims")
+      | _, _ => (st, "reject bad-output dims")
   | ["zone", md, ids] => match md.toInt?, parseIds ids, out with
       | some md, some zone, [w, r, segs] =>
         let g := st.graphOf "ts"
